@@ -252,7 +252,10 @@ def check_intrinsic(ctx, name, obj, regime, site, icls, coords, hist):
 def gen_index(g, n, form):
     """(argument, description) for select/delete style index arguments on an axis of length n."""
     if form == "int":
-        i = int(g.integers(-n, n)); return i, "int"
+        i = int(g.integers(-n, n))
+        if g.random() < 0.4:
+            return numpy.int64(i), "numpy integer scalar"     # what argmax()/Generator.integers() hand back
+        return i, "int"
     if form == "slice":
         a = int(g.integers(0, n)); b = int(g.integers(a, n + 1)); st = int(g.choice([1, 1, 2]))
         return slice(a, b, st), "slice"
@@ -358,6 +361,8 @@ def step_(ctx, g, name, obj, ids, regime, nxt, hist, coords, sibs):
         posform = str(g.choice(["int", "positions"])) if k > 1 else "int"
         if posform == "int":
             pos = int(g.integers(-n, n + 1)) if n else 0
+            if g.random() < 0.4:
+                pos = numpy.int64(pos)        # numpy integer scalar index
         else:
             pos = numpy.sort(g.integers(0, n + 1, k)).astype("int64")
         new = LM.insert_ids(cur, pos, nw)
